@@ -212,7 +212,8 @@ pub fn run_seq(cfg: Cfg, ops: &[Op]) -> Option<(String, String)> {
     }
     let failing = cfg.fail_at.is_some();
     let r = catch_unwind(AssertUnwindSafe(|| -> Option<(String, String)> {
-        let mut w = DeferredWriter::from_write(sink);
+        // both constructors: the boxed one for the configurations whose sink is interrupted
+        let mut w = if cfg.interrupt != 0 { DeferredWriter::from_boxed_dyn_write(Box::new(sink)) } else { DeferredWriter::from_write(sink) };
         if cfg.prefill > 0 {
             let v = fresh(cfg.prefill, &mut written);
             w.write_all_defer_err(&v);
@@ -282,6 +283,9 @@ pub fn run_seq(cfg: Cfg, ops: &[Op]) -> Option<(String, String)> {
         }
         drop(w);
         let l = log.borrow();
+        if l.calls_while_pending > 0 {
+            bad!("C11 the sink is not called between a failure and its report", "dropping the writer with an unreported failure: {} calls of the sink", l.calls_while_pending);
+        }
         if !failing && l.accepted != written {
             bad!("C11 after the writer is dropped the sink has received exactly the written bytes", "{} bytes written, {} received, first difference at {:?}", written.len(), l.accepted.len(), first_diff(&l.accepted, &written));
         }
@@ -395,7 +399,7 @@ pub fn suite(_prop: &str, tier: &str, seed: u64) -> Report {
     rep.inputs = rep.runs;
     rep.nontrivial = rep.runs;
     rep.bound = format!(
-        "writer: every sequence of up to {} operations out of {} (write_all_defer_err of 0/1/7/16383/16384/16385/40000 bytes, Write::write, direct buffer writes of 3/16384 bytes, 6 integer extremes, flush_defer_err, Write::flush, check_io_error) under {} configurations (buffer empty / 14 / 1 bytes from full; sink accepting all / 4 / 16384 bytes per call, transient Interrupted, failing once or forever after 0/4/16384/16390 bytes), seeded longer sequences, and 26 integer values of all 12 types at the last 46 fill levels; the writer is dropped at the end of every sequence",
+        "writer: every sequence of up to {} operations out of {} (write_all_defer_err of 0/1/7/16383/16384/16385/40000 bytes, Write::write, direct buffer writes of 3/16384 bytes, 6 integer extremes, flush_defer_err, Write::flush, check_io_error) under {} configurations (buffer empty / 14 / 1 bytes from full; sink accepting all / 4 / 16384 bytes per call, transient Interrupted, failing once or forever after 0/4/16384/16390 bytes), seeded longer sequences, and 26 integer values of all 12 types at the last 46 fill levels; built by from_write / from_boxed_dyn_write; the writer is dropped at the end of every sequence (a sink with an unreported failure must not be called by the drop either)",
         n,
         ops_all.len(),
         cfgs.len()
